@@ -69,6 +69,29 @@ type cliRun struct {
 	Trace    []string
 }
 
+func copyEnv(m map[string]string) map[string]string {
+	c := map[string]string{}
+	for k, v := range m {
+		c[k] = v
+	}
+	return c
+}
+
+// raceHead returns the two access sites of a race report.
+func raceHead(out string) string {
+	var keep []string
+	lines := strings.Split(out, "\n")
+	for i, l := range lines {
+		if (strings.Contains(l, " by goroutine ") || strings.Contains(l, " by main goroutine")) && i+1 < len(lines) {
+			keep = append(keep, strings.TrimSpace(l)+" "+strings.TrimSpace(lines[i+1]))
+		}
+	}
+	if len(keep) > 2 {
+		keep = keep[:2]
+	}
+	return strings.Join(keep, " / ")
+}
+
 func runCLI(cli string, dir string, args []string, env map[string]string, stdin []byte) cliRun {
 	cmd := exec.Command(cli, args...)
 	cmd.Dir = dir
@@ -258,10 +281,25 @@ func C19(c *Case) *Result {
 			res.Render["cli_runs"] = rr
 		}
 	}()
+	// a third of the scheduled fault-free runs use the race-built tool: state shared between the
+	// file tasks of one invocation (or between their streams) outside any synchronisation is
+	// reported by the detector whatever the schedule, the simulator's baton being invisible to it
+	raceCLI := os.Getenv("KSIM_CLI_RACE")
+	useRace := false
 	exec1 := func(args []string, env map[string]string, stdin []byte) cliRun {
 		sim.Heartbeat()
-		r := runCLI(cli, root, args, env, stdin)
+		bin := cli
+		if useRace && raceCLI != "" && env["KSIM_SEED"] != "" && env["KSIM_KILL"] == "" {
+			bin = raceCLI
+			env = copyEnv(env)
+			env["GORACE"] = "halt_on_error=1 exitcode=66"
+			res.Probes["cli.runs.race.build"]++
+		}
+		r := runCLI(bin, root, args, env, stdin)
 		runs = append(runs, r)
+		if bin == raceCLI && (r.RC == 66 || strings.Contains(r.Out, "WARNING: DATA RACE")) {
+			res.fail("cli-data-race", "the race detector reports unsynchronised sharing inside the tool (%v): %s", args, raceHead(r.Out))
+		}
 		if r.TimedOut {
 			// not a crash of the tool: the run did not end within 15 minutes (a hang if it recurs on replay)
 			res.fail("cli-timeout", "the tool did not terminate within 900 s: %v", args)
@@ -309,6 +347,7 @@ func C19(c *Case) *Result {
 				env["KSIM_SHORT_IN"] = fmt.Sprint(1 + t.Intn(5000))
 			}
 		}
+		useRace = env["KSIM_SEED"] != "" && t.Intn(3) == 0
 		mode := t.Pick(3, 2, 1, 2) // dir in place, dir to out dir, single file, stdin/stdout
 		if special != 0 && t.Intn(2) == 0 {
 			mode = 1
